@@ -154,6 +154,99 @@ def c_timeline(chk, g, drv, jobs):
         jobs.append(('timeline', args, impl))
 
 
+def c_trajectory(chk, g, drv, jobs):
+    """the trajectory layer without the ephemeris: the real `xObservationTimeline` → `timeline_mets` → `_generic_binary_search` driven by a
+    trajectory whose SAA / occultation status is a known set of intervals (whole seconds, every interval and gap longer than the 100 s search
+    grid); the observation window starts and stops inside or outside an epoch of either kind, in every combination"""
+    from ixpeobssim.instrument import traj
+    T0 = 150000000 + int(g.integers(0, 10 ** 6))
+    def intervals(period, length, phase):
+        return [(T0 + k * period + phase, T0 + k * period + phase + length) for k in range(-2, 8)]
+    occ = intervals(int(g.integers(4000, 6000)), int(g.integers(800, 2500)), int(g.integers(0, 3000)))
+    saa = sorted((T0 + int(a), T0 + int(a) + int(g.integers(400, 1200))) for a in g.choice(numpy.arange(0, 30000, 2500), 3, replace=False) + g.integers(0, 800))
+    def inside(met, ivs):
+        met = numpy.asarray(met, dtype=float)
+        m = numpy.zeros(met.shape, dtype=bool)
+        for lo, hi in ivs:
+            m |= (met >= lo) & (met < hi)
+        return m
+
+    class Stub(traj.xIXPETrajectory):
+        def __init__(self, *a, **k):
+            pass
+        def __del__(self):
+            pass
+        def in_saa(self, met):
+            return inside(met, saa)
+        def target_occulted(self, met, *a, **k):
+            return inside(met, occ)
+
+    def pick(kind):           # a window bound: inside an occultation, inside an SAA passage, or in the clear (never within 150 s of a transition)
+        for _ in range(200):
+            if kind == 'occ':
+                lo, hi = occ[int(g.integers(2, 7))]
+            elif kind == 'saa':
+                lo, hi = saa[int(g.integers(0, len(saa)))]
+            else:
+                lo, hi = T0, T0 + 30000
+            t = int(g.integers(lo + 150, max(lo + 151, hi - 150)))
+            marks = [x for iv in occ + saa for x in iv]
+            st = (bool(inside(t, occ)), bool(inside(t, saa)))
+            if min(abs(t - x) for x in marks) >= 150 and st == dict(occ=(True, False), saa=(False, True), clear=(False, False))[kind]:
+                return t
+        return None
+    k0, k1 = str(g.choice(['occ', 'saa', 'clear'])), str(g.choice(['occ', 'saa', 'clear']))
+    a, b = pick(k0), pick(k1)
+    if a is None or b is None or a == b:
+        return
+    start, stop = min(a, b), max(a, b)
+    if stop - start < 1000:
+        return
+    use_saa, use_occ = bool(g.uniform() < 0.8), bool(g.uniform() < 0.9)
+    args = dict(start=start, stop=stop, occ=[list(x) for x in occ], saa=[list(x) for x in saa], use_saa=use_saa, use_occ=use_occ, bounds=[k0, k1])
+    orig = traj.xIXPETrajectory
+    traj.xIXPETrajectory = Stub
+    try:
+        tl = traj.xObservationTimeline(float(start), float(stop), 45., 45., use_saa, use_occ)
+        gl = [tuple(x) for x in tl.gti_list()]
+        ol = [tuple(x) for x in tl.octi_list()]
+        raw = {name: numpy.ravel(Stub()._generic_binary_search(float(start), float(stop), fn)) for name, fn in
+               (('saa', lambda m: inside(m, saa)), ('occ', lambda m: inside(m, occ)))}
+    except BaseException as e:
+        chk.case(dict(op='trajectory', **args), nontrivial=True)
+        chk.fail('impl', 'xObservationTimeline on a stub trajectory raised %s: %s (%s)' % (type(e).__name__, e, args), dict(oracle='trajectory', args=args, error=str(e)))
+        return
+    finally:
+        traj.xIXPETrajectory = orig
+    # the statement, brute force
+    bounds = sorted({start, stop} | {t for iv in (saa if use_saa else []) + (occ if use_occ else []) for t in iv if start < t < stop})
+    eg, eo = [], []
+    for lo, hi in zip(bounds[:-1], bounds[1:]):
+        mid = 0.5 * (lo + hi)
+        s_, o_ = bool(use_saa and inside(mid, saa)), bool(use_occ and inside(mid, occ))
+        if not s_ and not o_:
+            eg.append((lo, hi))
+        if o_ and not s_:
+            eo.append((lo, hi))
+    same = lambda x, y: len(x) == len(y) and all(abs(p - q) < 0.01 for u, v in zip(x, y) for p, q in zip(u, v))
+    chk.case(dict(op='trajectory', start=start - T0, stop=stop - T0, bounds=[k0, k1], use_saa=use_saa, use_occ=use_occ, n_gti=len(eg)),
+             nontrivial=(k0 != 'clear' or k1 != 'clear') and len(bounds) > 3)
+    if not same(gl, eg) or not same(ol, eo):
+        fmt = lambda l: [(round(u - T0, 3), round(v - T0, 3)) for u, v in l]
+        chk.fail('impl', 'timeline from a trajectory with known SAA/occultation intervals, window starting in %s and ending in %s (saa=%s, occult=%s): GTIs %s, the '
+                 'epochs neither in the SAA nor occulted are %s; calibration intervals %s, expected %s (times relative to %d)' % (
+                     k0, k1, use_saa, use_occ, fmt(gl), fmt(eg), fmt(ol), fmt(eo), T0), dict(oracle='trajectory', args=args))
+    # the closing step against the model: the located transitions are the true ones (to the search precision), the ends are the model's
+    for name, ivs in (('saa', saa), ('occ', occ)):
+        ts = sorted(t for iv in ivs for t in iv if start < t < stop)
+        s0 = bool(inside(start, ivs))
+        impl = [int(round(x)) for x in raw[name]]
+        if any(abs(x - round(x)) > 0.002 for x in raw[name]):
+            chk.fail('impl', '_generic_binary_search: transitions %s are not within the search precision of the true ones %s' % (list(raw[name]), ts), dict(oracle='trajectory', args=args))
+        drv.ask('closeends %d %d %d %d %s' % (start, stop, int(s0), len(ts), ' '.join(map(str, ts))))
+        jobs.append(('closeends', dict(start=start, stop=stop, s0=s0, ts=ts, kind=name), impl))
+
+
 def app_timeline(chk, g):
     """the application layer: `bin/xpobssim._build_timeline` parses the six padding / minimum-duration options and forwards them to the
     timeline; with a synthetic timeline in place of the ephemeris-based one, the GTI list and the calibration intervals it returns are the
@@ -280,6 +373,8 @@ def run_cases(chk, n, tagname, budget=1):
     for i in range(n * budget):
         for name in ('filter', 'complement', 'timeline', 'bingti'):
             GENS[name](chk, g, drv, jobs)
+        if i % 2 == 0:
+            c_trajectory(chk, g, drv, jobs)
     replies = drv.run()
     for (name, args, impl), rep in zip(jobs, replies):
         model = [int(x) for x in rep.split()] if rep.strip() else []
@@ -291,7 +386,7 @@ def run_cases(chk, n, tagname, budget=1):
 def main(chk):
     chk.rule = ('exact comparison (dyadic times) of xGTIList.filter_event_times/complement/total_good_time, of gti_list/octi_list on synthetic timelines '
                 '(random interleavings of SAA/occultation boundaries, several paddings and minimum durations, 1–4 successive queries on the same timeline object) '
-                'and of _bin_gti (random bins, bins with edges on GTI bounds, bins straddling a gap) with the Lean models and with the statement transcribed '
+                'the trajectory layer (real xObservationTimeline/_generic_binary_search on a stub trajectory with known SAA and occultation intervals, windows starting and ending inside or outside an epoch) and of _bin_gti (random bins, bins with edges on GTI bounds, bins straddling a gap) with the Lean models and with the statement transcribed '
                 'independently; LC EXPOSURE through the real xpbin. non-trivial = ≥ 2 GTIs with kept and dropped times / both flags present and non-zero padding / '
                 'bin overlapping ≥ 2 GTIs')
     chk.assumptions = TRUSTED
